@@ -160,3 +160,47 @@ theorem forward_run_eq (h : OrdLaws cmp) (sh : K → Bool) (A B : List (K × V))
 
 end
 end BV.C05.Lemmas
+
+namespace BV.C05.Lemmas
+open BV.C05
+section
+variable {K V : Type} {cmp : K → K → Ordering}
+
+/-- the entries from the first one `≥ k` on -/
+def fromGE (cmp : K → K → Ordering) (k : K) (xs : List (K × V)) : List (K × V) :=
+  xs.dropWhile (fun x => cmp k x.1 == .gt)
+
+theorem firstGE_eq_head (k : K) (xs : List (K × V)) :
+    firstGE cmp k xs = (fromGE cmp k xs).head? := by
+  induction xs with
+  | nil => rfl
+  | cons x xs ih =>
+    simp only [firstGE, fromGE, List.dropWhile]
+    by_cases hx : cmp k x.1 = .gt
+    · simp only [hx, if_true, beq_self_eq_true]; exact ih
+    · have : (cmp k x.1 == Ordering.gt) = false := by
+        cases hc : cmp k x.1 <;> simp_all
+      simp [hx, this]
+
+theorem fromGE_suffix (k : K) (xs : List (K × V)) :
+    xs = xs.takeWhile (fun x => cmp k x.1 == .gt) ++ fromGE cmp k xs :=
+  (List.takeWhile_append_dropWhile).symm
+
+/-- `Seek k` followed by `Next` until exhaustion -/
+theorem seek_run_eq (h : OrdLaws cmp) (sh : K → Bool) (A B : List (K × V))
+    (hA : SortedKeys cmp A) (hB : SortedKeys cmp B) (k : K) (n : Nat)
+    (hn : A.length + B.length ≤ n) :
+    collectFwd cmp sh A B n (mSeek cmp sh A B k) =
+      fwdRun cmp sh (fromGE cmp k A) (fromGE cmp k B) := by
+  have e : mSeek cmp sh A B k = stOf cmp sh A (fromGE cmp k A) (fromGE cmp k B) := by
+    simp only [mSeek, stOf, firstGE_eq_head]
+  rw [e]
+  apply forward_run_eq h sh A B hA hB _ _ _ _ n (fromGE_suffix k A) (fromGE_suffix k B)
+  have h1 : (fromGE cmp k A).length ≤ A.length := by
+    unfold fromGE; exact List.Sublist.length_le (List.dropWhile_sublist _)
+  have h2 : (fromGE cmp k B).length ≤ B.length := by
+    unfold fromGE; exact List.Sublist.length_le (List.dropWhile_sublist _)
+  omega
+
+end
+end BV.C05.Lemmas
